@@ -1,5 +1,6 @@
 from __future__ import annotations
 
+from copy import copy
 from dataclasses import dataclass
 import sys
 
@@ -35,6 +36,16 @@ class ListWrapper(RandomSource):
         return 1 * (max - min) / k + min
 
 
+def decider_reading_from(decider: SynthesisDecider, rand: RandomSource) -> SynthesisDecider:
+    """A copy of the decider whose decisions are drawn from the genotype-backed source, so
+    that the phenotype is a function of the genotype alone."""
+    if not hasattr(decider, "random"):
+        return decider
+    bound = copy(decider)
+    bound.random = rand  # type: ignore
+    return bound
+
+
 class GrammaticalEvolutionRepresentation(
     Representation[Genotype, TreeNode],
     RepresentationWithMutation[Genotype],
@@ -60,7 +71,7 @@ class GrammaticalEvolutionRepresentation(
 
     def genotype_to_phenotype(self, genotype: Genotype) -> TreeNode:
         rand: RandomSource = ListWrapper(genotype.dna)
-        return random_node(rand, self.grammar, self.grammar.starting_symbol, self.decider)
+        return random_node(rand, self.grammar, self.grammar.starting_symbol, decider_reading_from(self.decider, rand))
 
     def mutate(self, random: RandomSource, genotype: Genotype, **kwargs) -> Genotype:
         rindex = random.randint(0, self.gene_length - 1)
